@@ -1,12 +1,13 @@
 (* Props/C06.v — placement independence. *)
 From Coq Require Import List NArith Arith Bool.
 From SKV Require Import Base.Lex Txn.WriteSet Spec.Store Spec.Cursor Spec.Machine Lsm.CompactKey Lsm.CompactKeySpec Lsm.CompactKey_proofs.
+From SKV Require Import Lsm.LevelsParams Lsm.Levels Lsm.LevelsSpec Lsm.Levels_proofs.
 Import ListNotations.
 
 (* On the specification machine physical operations change nothing (by definition of `step`);
    stated so that the tie "implementation = specification machine on every program" carries the
    property: equal logical projections give equal answers. *)
-Theorem C06_physical_is_identity : forall s, step s Physical = (s, ROk).
+Theorem C06_physical_is_identity : forall s, Machine.step s Physical = (s, ROk).
 Proof. intros s. reflexivity. Qed.
 
 (* compaction never invents or reorders versions, and without snapshots and versioning it keeps
@@ -18,3 +19,57 @@ Theorem C06_compact_key_plain : compact_key_plain_stmt.
 Proof. exact compact_key_plain. Qed.
 Theorem C06_compact_key_view : compact_key_view_stmt.
 Proof. exact compact_key_view. Qed.
+
+(* ---- the level structure (Lsm/Levels.v): which source a point read consults first, which tables a
+   compaction may pick.  `current` / `current_sel` are the rules GENERATED from src/snapshot.rs, src/lsm.rs,
+   src/compaction/leveled.rs (Lsm/LevelsParams.v): the theorems are about them by eq_refl on the generated
+   flags — a changed search order, level-0 comparison, flushed memtable or input selection changes the
+   model and these proofs stop building. *)
+Theorem C06_levels_anchors : LEVELS_ANCHORS_OK = true.
+Proof. reflexivity. Qed.
+(* under the age-order invariant a point read is the merging iterator's answer at that key, for every
+   snapshot horizon; hence a loop of point reads is the scan *)
+Theorem C06_get_is_view : get_is_view_stmt current.
+Proof. exact (get_is_view current eq_refl). Qed.
+Theorem C06_scan_is_view : scan_is_view_stmt current.
+Proof. exact (scan_is_view current eq_refl). Qed.
+(* commit (per-key newer), rotate, flush (the oldest immutable), compaction (selection condition), reopen
+   (any cut of the log) preserve the invariant — for any number of steps *)
+Theorem C06_step_inv : step_inv_stmt current.
+Proof. exact (step_inv current eq_refl). Qed.
+Theorem C06_run_inv : run_inv_stmt current.
+Proof. exact (run_inv current eq_refl). Qed.
+(* placement independence over arbitrary sequences of rotate / flush / compaction / reopen: every reader the
+   compactions were told about (or that is at or above everything stored) gets the same answers from get
+   and from the merging iterator *)
+Theorem C06_placement_independence : placement_independence_stmt current.
+Proof. exact (placement_independence current eq_refl). Qed.
+Theorem C06_run_view_stable : run_view_stable_stmt current.
+Proof. exact (run_view_stable current eq_refl). Qed.
+(* the crate's own table selection (level 0: all tables; deeper: a seed table; plus every next-level table
+   overlapping the combined key range) satisfies the selection condition *)
+Theorem C06_select_tables_sel_ok : select_tables_sel_ok_stmt current_sel.
+Proof. exact (select_tables_sel_ok current_sel eq_refl). Qed.
+(* regression record of the level-0 rule before 4492089, and the two halves of the selection condition are needed *)
+Theorem C06_old_l0_rule_stale : old_l0_rule_stale_stmt.
+Proof. exact old_l0_rule_stale. Qed.
+Theorem C06_bad_selection_breaks : bad_selection_breaks_stmt.
+Proof. exact bad_selection_breaks. Qed.
+Theorem C06_missing_target_breaks : missing_target_breaks_stmt.
+Proof. exact missing_target_breaks. Qed.
+(* the extracted checkers used by the conformance replay decide the invariant and the side conditions *)
+Theorem C06_inv_b_sound : inv_b_sound_stmt.
+Proof. exact inv_b_sound. Qed.
+Theorem C06_op_ok_b_sound : op_ok_b_sound_stmt.
+Proof. exact op_ok_b_sound. Qed.
+Theorem C06_op_keeps_b_sound : op_keeps_b_sound_stmt.
+Proof. exact op_keeps_b_sound. Qed.
+(* the hypotheses of the theorems above hold on a concrete non-trivial run (a registered reader, a delete and
+   re-insert under it, rotations, flushes, the crate's level-0 selection, a reopen that cuts the log, compactions
+   down to the bottom level); (S1) needs no check below level 0 *)
+Theorem C06_run_hypotheses_satisfiable : run_hypotheses_satisfiable_stmt.
+Proof. exact run_hypotheses_satisfiable. Qed.
+Theorem C06_selection_example : selection_example_stmt.
+Proof. exact selection_example. Qed.
+Theorem C06_sel_s1_by_disjointness : sel_s1_disjoint_stmt.
+Proof. exact sel_s1_by_disjointness. Qed.
